@@ -37,7 +37,7 @@ pub fn prop() -> Prop {
             Tier::Quick => 40,
             Tier::Thorough => 400,
         },
-        required_probes: &["signers_gt_t", "non_prefix_subset", "t_eq_n", "keygen_dkg", "keygen_split", "keygen_dealer", "concurrent_sessions", "ids_derived", "ids_u16ext", "ids_scalar", "msg_empty", "third_party_verified", "signers_ge_9", "signers_ge_17"],
+        required_probes: &["signers_gt_t", "non_prefix_subset", "t_eq_n", "keygen_dkg", "keygen_split", "keygen_dealer", "concurrent_sessions", "ids_derived", "ids_u16ext", "ids_scalar", "msg_empty", "third_party_verified", "signers_ge_9", "signers_ge_17", "signers_ge_432"],
         prepare: None,
     }
 }
@@ -79,6 +79,15 @@ fn gen_c<C: Suite>(seed: u64, run: u64, tier: Tier) -> Scenario {
         t = (*p.pick(&[2u16, 3, 17, 33, 129])).min(n);
         wide = true;
     }
+    // a handful of HUGE sessions per batch (2-of-450, 440+ signers) on the big-endian suites: multiscalar code paths that
+    // only exist for hundreds of points; ~5-10 s each
+    let mut keygen = keygen;
+    if (tier == Tier::Thorough || run < 10) && ((run % 1700 == 2 && C::NAME == "secp256k1") || (run % 1700 == 3 && C::NAME == "secp256k1-tr") || (run % 1700 == 4 && C::NAME == "p256")) {
+        n = 450;
+        t = 2;
+        wide = true;
+        keygen = 0;
+    }
     if keygen == 2 {
         // DKG costs O(n^2 t) scalar multiplications
         let cap = match (tier, slow) {
@@ -105,13 +114,16 @@ fn gen_c<C: Suite>(seed: u64, run: u64, tier: Tier) -> Scenario {
     let pool: Vec<usize> = (0..n as usize).collect();
     if wide {
         // one session, exactly t signers or slightly more, random members
-        let k = (t as usize + p.below(3) as usize).min(n as usize);
+        let k = if n == 450 { 440 + p.below(10) as usize } else { (t as usize + p.below(3) as usize).min(n as usize) };
         let mut sg: Vec<usize> = p.subset(n as usize, k);
         p.shuffle(&mut sg);
         s.phases.push(vec![Inst::Sign { signers: sg, msg_hex: hexs(&gen_message(&mut p)), mode: SignMode::Plain }]);
         s.sched = Sched::Random;
         let mut fp = stream(seed, run, "faults");
         s.faults = gen_honest_faults(&mut fp, &s, 3, 0b00111);
+        if keygen == 0 {
+            s.phases[0] = vec![Inst::DealerKeygen { split_key: false }];
+        }
         return s;
     }
     let sign_phases = p.range(1, 2);
@@ -184,6 +196,9 @@ fn exec_c<C: Suite>(scen: &Scenario) -> Exec {
             }
             if k >= 17 {
                 rep.probe("signers_ge_17");
+            }
+            if k >= 432 {
+                rep.probe("signers_ge_432");
             }
             // non-prefix subset: signer set is not the t lowest identifiers
             let mut all_ids: Vec<_> = pk.verifying_shares().keys().cloned().collect();
